@@ -30,6 +30,7 @@ type Program struct {
 }
 
 type gen struct {
+	needHash bool
 	t         *rapid.T
 	off       map[string]bool
 	types     map[string]*typ
@@ -1545,7 +1546,11 @@ func Generate(t *rapid.T, off map[string]bool) *Program {
 	g.prog.Steps = nsteps
 
 	var b strings.Builder
-	b.WriteString("package main\n\nimport \"fmt\"\n\n")
+	if g.needHash {
+		b.WriteString("package main\n\nimport (\n\t\"crypto/md5\"\n\t\"crypto/sha256\"\n\t\"fmt\"\n)\n\nvar _, _ = md5.Sum, sha256.Sum256\n\n")
+	} else {
+		b.WriteString("package main\n\nimport \"fmt\"\n\n")
+	}
 	for _, s := range g.structs {
 		fmt.Fprintf(&b, "type %s struct {\n", s.str)
 		for _, f := range s.fields {
